@@ -32,7 +32,7 @@ def random_cfg(rnd, inv):
     cfgv[cl.SNAP_DID] = pick([2, 2, 1, 3, 4, 8, 0, 9])
     cfgv[cl.EXT_SIZE] = pick([-1, 0, 1, 2, 5, 4095, 4096]) if inv.cfg.get(cl.EXT_SIZE) is None else inv.cfg[cl.EXT_SIZE]
     if inv.cfg.get(cl.ALGO) is None:
-        cfgv[cl.ALGO] = pick([0, 1, 2, 3, 4, 5, 6, 7])
+        cfgv[cl.ALGO] = pick([0, 1, 2, 3, 4, 5, 6, 7, 8])
     cfgv[cl.ALGO_PRM] = pick([-1, 0, 7, 300])
     return cfgv
 
